@@ -26,6 +26,16 @@ def dlit(x):
     """The user's decimal literal (shortest repr of the float), as an exact rational: the model computes on what was written."""
     return qlit(F(repr(float(x))))
 
+def stop_lit(start, stop, dt):
+    """`stop` as the model sees it.  A stop that is a whole number of steps from the start *to rounding* (the decimal texts of start, stop, dt put
+    it within 1e-9 steps of a grid point: e.g. stop = start + 29 * (1/12) computed in floats) is the grid point itself -- the property bounds the
+    last point by stop "to rounding".  Exact multiples (2000, 2000.3, 0.1) are unchanged, so the float-floor finding still shows."""
+    a, b, d = F(repr(float(start))), F(repr(float(stop))), F(repr(float(dt)))
+    if d > 0:
+        q = (b - a) / d; k = round(q)
+        if q != k and abs(q - k) < F(1, 10**9): return qlit(a + k * d)
+    return qlit(b)
+
 def ql(xs): return '[' + '; '.join(qlit(float(x)) for x in xs) + ']'
 def zl(xs): return '[' + '; '.join(str(int(x)) if int(x) >= 0 else f'({int(x)})' for x in xs) + ']%Z'
 
@@ -135,7 +145,7 @@ def run(ctx):
             oracle_time(ctx, ss, t, spec); continue            # dateutil month stepping is not modelled: implementation-side clauses only
         tv, yv, el = np.asarray(t.timevec if t.is_numeric else [0] * t.npts, dtype=float), np.asarray(t.yearvec, dtype=float), np.asarray(t.tvec, dtype=float)
         if spec['kind'] == 'numeric':
-            mdl = f'numeric_timeline {UC[spec["unit"]]} {dlit(spec["start"])} {dlit(spec["stop"])} {dlit(spec["dt"])}'
+            mdl = f'numeric_timeline {UC[spec["unit"]]} {dlit(spec["start"])} {stop_lit(spec["start"], spec["stop"], spec["dt"])} {dlit(spec["dt"])}'
             dates = [d.date().toordinal() for d in t.datevec]
             kindflag = 0
         else:
